@@ -190,7 +190,8 @@ Definition cycle (npre nsamp : Z) (b : broker) (sts : list stream) (blk : block)
 (* ---------- histories ---------- *)
 Inductive op :=
 | OEdit (e : edit)
-| OCycle (blk : block) (prims : list (list Z)).
+| OCycle (blk : block) (prims : list (list Z))
+| ORestart.     (* SourceControl.Stop, then SourceControl.Start of the same source *)
 
 Inductive obs :=
 | ORep (pairs : list (Z * Z)) (cnt : Z) (coup : Z)
@@ -202,8 +203,11 @@ Inductive obs :=
 (* m_view = the last GROUPTRIGGER client update, m_coup = the last TRIGCOUPLING client update (0: none) *)
 Record mstate := { m_b : broker; m_sts : list stream; m_view : list (Z * Z); m_coup : Z }.
 
+(* PrepareRun: a new broker and new processors (empty streams) *)
+Definition fresh_streams (n : Z) : list stream := map (fun _ => empty_stream) (zrange 0 n).
+
 Definition init_state (n : Z) : mstate :=
-  {| m_b := new_broker n; m_sts := map (fun _ => empty_stream) (zrange 0 n);
+  {| m_b := new_broker n; m_sts := fresh_streams n;
      m_view := [] (* Start broadcasts the fresh broker's state *); m_coup := 0 |}.
 
 Record config := { cf_kind : kind; cf_n : Z; cf_npre : Z; cf_nsamp : Z }.
@@ -239,6 +243,12 @@ Section Run.
         | Ok (sts', recs) =>
             (Ok {| m_b := m_b m; m_sts := sts'; m_view := m_view m; m_coup := m_coup m |}, OSec recs)
         end
+    | ORestart =>
+        (* Start -> PrepareRun discards the broker and the processors; SourceControl.Start then broadcasts the
+           group trigger state of the new broker (broadcastGroupTriggerState); no TRIGCOUPLING update is sent *)
+        let b' := new_broker (cf_n cf) in
+        (Ok {| m_b := b'; m_sts := fresh_streams (cf_n cf); m_view := report_pairs b'; m_coup := m_coup m |},
+         ORep (report_pairs b') (b_cnt b') (m_coup m))
     end.
 
   (* the observations of a history; nothing follows a crash *)
